@@ -358,6 +358,21 @@ loop:
 	o.lc.ShutdownInitiated(nil)
 	o.sub.Close()
 
+	// A reservation or a bid broadcast may still be in flight. Wait for it, so that
+	// whatever it acquired is released below instead of being dropped.
+	if clusterch != nil {
+		if result := <-clusterch; result.Error() == nil {
+			reservation = result.Value().(ctypes.Reservation)
+		}
+		clusterch = nil
+	}
+	if bidch != nil {
+		if result := <-bidch; result.Error() == nil {
+			o.bidPlaced = true
+		}
+		bidch = nil
+	}
+
 	// cancel reservation
 	if !won {
 		if reservation != nil {
@@ -388,12 +403,6 @@ loop:
 	// Wait for all runners to complete.
 	if groupch != nil {
 		<-groupch
-	}
-	if clusterch != nil {
-		<-clusterch
-	}
-	if bidch != nil {
-		<-bidch
 	}
 	if pricech != nil {
 		<-pricech
